@@ -144,6 +144,41 @@ pub fn run_c15(out: &mut Out, rng: &mut Rng, thorough: bool) {
         let mut cl: Vec<u64> = Vec::new();
         for _ in 0..3 { let s = rng.below(n); for i in 0..(1 + rng.below(20)) { cl.push((s + i) % n); } }
         fixed_case(out, depth, full, cap, &cl, "clusters");
+        // chunks whose boundaries coincide with the drains (chunk length = capacity) and which overlap each other:
+        // a later chunk re-pushes a whole aligned block of 4^k cells that contains the largest cell pushed so far
+        // (duplicates ACROSS drain boundaries; the intermediate BMOC then meets a coarser cell of the next one)
+        if depth >= 1 && cap >= 4 && cap <= 64 {
+          let kk = 1 + rng.below(((cap as f64).log(4.0).floor() as u64).max(1).min(depth as u64)) as u32;
+          let bl = 1u64 << (2 * kk);
+          if bl as usize <= cap && n > 4 * bl {
+            let base = (rng.below(n - 3 * bl) >> (2 * kk)) << (2 * kk);
+            let base = base.max(bl);
+            let x = base + rng.below(bl);                      // largest cell of the first chunk, inside the block
+            let mut c1: Vec<u64> = vec![x];
+            let mut v = x;
+            while c1.len() < cap && v > 0 { v -= (1 + rng.below(3)).min(v); c1.push(v); }
+            c1.sort_unstable(); c1.dedup();
+            let mut c2: Vec<u64> = (base..base + bl).collect();
+            let mut w = base + bl;
+            while c2.len() < cap && w < n { c2.push(w); w += 1 + rng.below(3); }
+            let mut seq = c1.clone(); seq.extend(c2.iter().cloned());
+            // optionally a third chunk re-pushing the next block or a far value
+            if rng.chance(0.5) { let mut c3: Vec<u64> = (base + bl..(base + 2 * bl).min(n)).collect(); c3.push((base + 3 * bl).min(n - 1)); seq.extend(c3); } else { seq.push((w + 7).min(n - 1)); }
+            fixed_case(out, depth, full, cap, &seq, "chunks-overlap-block");
+          }
+          // random overlapping chunks in a small window: every chunk is a sorted sample of the same 3*cap-wide window
+          let win = (3 * cap as u64).min(n);
+          let w0 = (rng.below(n - win + 1) >> 2) << 2;
+          let mut seq: Vec<u64> = Vec::new();
+          for _ in 0..(2 + rng.below(3)) {
+            let mut c: Vec<u64> = Vec::new();
+            let dens = 0.4 + 0.6 * rng.f01();
+            for h in w0..w0 + win { if rng.chance(dens) { c.push(h); } }
+            c.truncate(cap);
+            seq.extend(c);
+          }
+          fixed_case(out, depth, full, cap, &seq, "chunks-overlap-window");
+        }
         if rep == 0 { fixed_case(out, depth, full, cap, &[], "empty"); fixed_case(out, depth, full, cap, &[n - 1], "last"); fixed_case(out, depth, full, cap, &[0], "first"); }
       }
     }
